@@ -45,6 +45,11 @@ var builds int
 
 var allRegions = []string{"us-west-2", "eu-west-1", "ap-south-1", "us-east-1"}
 
+// Build constructs the v1 or v2 plug-in over the fake cloud.
+func Build(version int, cloud *awskms.Cloud, regions []string, preferred string) (appencryption.KeyManagementService, []string, error) {
+	return build(version, cloud, regions, preferred)
+}
+
 func build(version int, cloud *awskms.Cloud, regions []string, preferred string) (appencryption.KeyManagementService, []string, error) {
 	if version == 1 {
 		k, err := v1kms.NewAWS(crypto, preferred, cloud.ARNMap(regions...))
